@@ -1,0 +1,17 @@
+//go:build verif
+
+package directive
+
+import "github.com/jsightapi/jsight-schema-go-library/bytes"
+
+// VerifUnescapeParameter exposes the parameter unescaping rule.
+func VerifUnescapeParameter(b []byte) []byte { return unescapeParameter(bytes.Bytes(b)) }
+
+// VerifKeywordCoords returns the file name, begin and end of the directive's keyword.
+func (d Directive) VerifKeywordCoords() (string, int, int) {
+	n := ""
+	if d.keywordCoords.file != nil {
+		n = d.keywordCoords.file.Name()
+	}
+	return n, int(d.keywordCoords.begin), int(d.keywordCoords.end)
+}
